@@ -140,5 +140,6 @@ structure Drain (cfg : Cfg) (inp : Input) (s : Sys) : Prop where
   rcvSplit : inp.rcvErrs = s.rcvSent ++ s.rcvTodo
   errOnly : ∀ p ∈ s.errc1.buf ++ s.errc2.buf ++ s.merr.buf ++ mPkts s.em1 ++ mPkts s.em2 ++ s.errsOut, isErrPkt p = true
   doneAtOk : s.done = true → s.doneAt.isSome
+  sndExit2 : s.snd = .exit2 → (if cfg.doneFirst then s.done = true else s.errc1.closed = true)
 
 end SxVerif.Pipe
